@@ -50,6 +50,24 @@ def main():
         if n:
             idx = np.array([rnd.randint(-n, n - 1) for _ in range(rnd.randint(0, 5))], dtype=int)
             check("fancy", all(a[idx][i] == a[idx[i]] for i in range(len(idx))) and len(a[idx]) == len(idx))
+        # group reductions
+        G = rnd.randint(0, 5)
+        ids = np.array([rnd.randint(0, max(G - 1, 0)) for _ in range(n)], dtype=int) if G else np.array([], dtype=int)
+        w2 = a[:len(ids)]
+        ml = rnd.randint(0, 7)
+        bc = np.bincount(ids, weights=w2, minlength=ml)
+        check("bincount-length", len(bc) == max(ml, (int(ids.max()) + 1) if len(ids) else 0))
+        check("bincount-sum", all(abs(bc[g] - sum(w2[i] for i in range(len(ids)) if ids[i] == g)) < 1e-9 for g in range(len(bc))))
+        check("bincount-count", list(np.bincount(ids, minlength=ml)) == [sum(1 for x in ids if x == g) for g in range(max(ml, (int(ids.max()) + 1) if len(ids) else 0))])
+        m = np.array([rnd.random() < 0.5 for _ in range(len(ids))], dtype=bool)
+        bm = np.bincount(ids[m], weights=w2[m], minlength=ml)
+        check("bincount-masked", all(abs(bm[g] - sum(w2[i] for i in range(len(ids)) if ids[i] == g and m[i])) < 1e-9 for g in range(len(bm))))
+        check("where", all(np.where(m, w2, 0)[i] == (w2[i] if m[i] else 0) for i in range(len(ids))))
+        if n:
+            check("max", a.max() == max(a) and np.max(a) in list(a))
+            z = np.zeros(n); z[rnd.randint(0, n - 1)] += 1
+            check("item-assign", z.sum() == 1)
+        check("mask-select", list(a[a > 0]) == [x for x in a if x > 0] and (len(a[a > 0]) == n) == all(x > 0 for x in a))
         ints = np.array([rnd.randint(-300, 600) for _ in range(n)])
         check("astype-uint8-wraps", all(int(ints.astype(np.uint8)[i]) == int(ints[i]) % 256 for i in range(n)))
     print(json.dumps({"name": "numpy array algebra axioms (pyvc/nparr.py) vs numpy " + np.__version__, "ok": not bad,
